@@ -214,6 +214,56 @@ def gen(repo):
     wheel_locked = [n for n, body, touches in wheel_sections if _all_guarded(body, "TimingWheel::" + n, WL, touches)]
     wheel_fire_outside = _none_guarded(adv, "advance", WL, [r"fireCallback\s*\("]) and _none_guarded(drain, "TimingWheel::drain", WL, [r"fireCallback\s*\("])
 
+    # ---- c08w block (round 2): id allocation, saturating deadline, restart -------------------------------------------------
+    # schedule(): the id comes from ONE atomic read-modify-write of `_nextId` (it sits outside `_wheelMutex`, so a load followed by a
+    # store would hand the same id to two concurrent callers); nothing else in the class writes `_nextId` except the ctor and reset()
+    m_alloc = re.search(r"auto\s+id\s*=\s*_nextId\s*\.\s*fetch_add\s*\(\s*1\s*[,)]", sched)
+    if not m_alloc:
+        raise TranslateError("TimingWheel::schedule: `auto id = _nextId.fetch_add(1, ...)` not found (the id must come from one atomic read-modify-write)")
+    if len(re.findall(r"_nextId", sched)) != 1:
+        raise TranslateError("TimingWheel::schedule: `_nextId` is touched more than once (expected only `_nextId.fetch_add(1, ...)`)")
+    nextid_writes = re.findall(r"_nextId\s*(?:\.\s*(?:store|exchange|fetch_\w+|compare_exchange_\w+)\s*\(|=|\+\+|--|\+=|-=)", w)
+    nextid_writes = [re.sub(r"\s+", "", x) for x in nextid_writes]
+    if sorted(nextid_writes) != sorted(["_nextId.fetch_add(", "_nextId.store("]):
+        raise TranslateError("TimingWheel: writes to `_nextId` are not exactly schedule's fetch_add and reset's store: %s" % nextid_writes)
+    wheel_id_atomic = True
+    # schedule()/reschedule(): the deadline is `deadlineAfter(Clock::now(), delay)` (FC08c), never a plain `Clock::now() + delay`
+    resched = cxxscan.function_body(w, "reschedule")
+    def _deadline_shape(body, what, rx_sat, rx_plain):
+        if re.search(rx_sat, body):
+            return True
+        if re.search(rx_plain, body):
+            return False
+        raise TranslateError("%s: deadline computation not recognised" % what)
+    wheel_deadline_sat = (_deadline_shape(sched, "TimingWheel::schedule", r"deadline\s*=\s*deadlineAfter\s*\(\s*Clock::now\s*\(\s*\)\s*,\s*delay\s*\)", r"deadline\s*=\s*Clock::now\s*\(\s*\)\s*\+\s*delay") and
+                          _deadline_shape(resched, "TimingWheel::reschedule", r"entry->deadline\s*=\s*deadlineAfter\s*\(\s*Clock::now\s*\(\s*\)\s*,\s*newDelay\s*\)", r"entry->deadline\s*=\s*Clock::now\s*\(\s*\)\s*\+\s*newDelay"))
+    wheel_deadline_clamp = False
+    if wheel_deadline_sat:
+        da = cxxscan.function_body(w, "deadlineAfter")
+        if not re.search(r"ahead\s*=\s*std::chrono::duration_cast\s*<\s*std::chrono::milliseconds\s*>\s*\(\s*TimePoint::max\s*\(\s*\)\s*-\s*now\s*\)\s*;", da):
+            raise TranslateError("deadlineAfter: `ahead = duration_cast<milliseconds>(TimePoint::max() - now)` not found")
+        if not re.search(r"behind\s*=\s*std::chrono::duration_cast\s*<\s*std::chrono::milliseconds\s*>\s*\(\s*now\.time_since_epoch\s*\(\s*\)\s*\)\s*;", da):
+            raise TranslateError("deadlineAfter: `behind = duration_cast<milliseconds>(now.time_since_epoch())` not found")
+        if not re.search(r"return\s+now\s*\+\s*std::clamp\s*\(\s*delay\s*,\s*-\s*behind\s*,\s*ahead\s*\)\s*;", da):
+            raise TranslateError("deadlineAfter: `return now + std::clamp(delay, -behind, ahead);` not found")
+        wheel_deadline_clamp = True
+    # reset(): order of its effects; start(): the states it leaves
+    rst = cxxscan.function_body(w, "reset")
+    order_reset = _order(rst, "TimingWheel::reset", [("assert-STOPPED", r"assert\s*\(\s*_state\.load\s*\([^)]*\)\s*==\s*TimingWheelState::STOPPED\s*\)"),
+                                                     ("clearAllEntries", r"clearAllEntries\s*\(\s*\)"), ("currentTick=0", r"w\.currentTick\s*=\s*0\s*;"),
+                                                     ("lastAdvance=unset", r"_lastAdvanceTime\s*=\s*TimePoint\s*\{\s*\}\s*;"),
+                                                     ("nextId=1", r"_nextId\.store\s*\(\s*1\s*[,)]"), ("state=RESET", r"_state\.store\s*\(\s*TimingWheelState::RESET")])
+    cae = cxxscan.function_body(w, "clearAllEntries")
+    order_clear = _order(cae, "clearAllEntries", [("lock", WL), ("freeEntry", r"freeEntry\s*\(\s*entry\s*\)"), ("entryMap.clear", r"_entryMap\.clear\s*\(\s*\)"),
+                                                  ("head=null", r"b\.head\s*=\s*nullptr"), ("tail=null", r"b\.tail\s*=\s*nullptr")])
+    if not re.search(r"for\s*\(\s*auto\s*&\s*w\s*:\s*_wheels\s*\)\s*\{\s*for\s*\(\s*auto\s*&\s*b\s*:\s*w\.buckets\s*\)\s*\{\s*b\.head\s*=\s*nullptr\s*;\s*b\.tail\s*=\s*nullptr\s*;", cae):
+        raise TranslateError("clearAllEntries: the loop that empties EVERY bucket of EVERY level is not in the recognised shape")
+    stt_body = cxxscan.function_body(w, "start")
+    start_from = re.findall(r"expected\s*=\s*TimingWheelState::(\w+)\s*;", stt_body)
+    if len(re.findall(r"compare_exchange_strong\s*\(\s*expected\s*,\s*TimingWheelState::RUNNING\s*\)", stt_body)) != len(start_from):
+        raise TranslateError("TimingWheel::start: CAS shape not recognised")
+    # ---- end of c08w block -------------------------------------------------------------------------------------------------
+
     kv_tick = cxxscan.find_int(r"ttlTickDuration\s*\{\s*(\w+)\s*\}", k, "KVStoreConfig::ttlTickDuration")
     kv_slots = cxxscan.find_int(r"ttlTicksPerWheel\s*=\s*(\w+)\s*;", k, "KVStoreConfig::ttlTicksPerWheel")
     kv_levels = cxxscan.find_int(r"ttlNumWheels\s*=\s*(\w+)\s*;", k, "KVStoreConfig::ttlNumWheels")
@@ -346,6 +396,109 @@ def gen(repo):
             raise TranslateError("TimerService::cancel: the guard store is under an unrecognised condition: %s" % conds)
         guard_unconditional = not inside_transition
 
+    # ---- reset(): WHAT it clears (the model's `resetSvc` is defined from this list); anything else touching the containers is not a
+    # recognised shape
+    reset_body = cxxscan.function_body(t, "reset", signature_contains="override")
+    reset_pats = [("records", r"_records\.clear\s*\(\s*\)"), ("periodic", r"_periodicTimers\.clear\s*\(\s*\)"), ("heap", r"_heap\.clear\s*\(\s*\)"),
+                  ("nextId", r"_nextId\s*=\s*0\s*;")]
+    reset_found = [(n, rx) for n, rx in reset_pats if re.search(rx, reset_body)]
+    if not reset_found:
+        raise TranslateError("TimerService::reset: clears nothing that is recognised")
+    others = re.findall(r"(_records|_periodicTimers|_heap|_nextId)\b(?!\.clear\s*\(\s*\)|\s*=\s*0\s*;)", reset_body)
+    if others:
+        # e.g. a swap into a local: the containers end up empty, but that is not the shape the model knows
+        reset_found = [(n, rx) for n, rx in reset_found]
+        extra_sw = [(n, m) for n, m in (("records", r"\.swap\s*\(\s*_records\s*\)|_records\.swap\s*\("), ("periodic", r"\.swap\s*\(\s*_periodicTimers\s*\)|_periodicTimers\.swap\s*\("),
+                                        ("heap", r"\.swap\s*\(\s*_heap\s*\)|_heap\.swap\s*\(")) if re.search(m, reset_body)]
+        have = {n for n, _ in reset_found}
+        for n, m in extra_sw:
+            if n not in have:
+                reset_found.append((n, m))
+        left = [o for o in others if not any(re.search(m, reset_body) for n, m in extra_sw if {"records": "_records", "periodic": "_periodicTimers", "heap": "_heap"}[n] == o)]
+        if left:
+            raise TranslateError("TimerService::reset: touches %s in an unrecognised way" % sorted(set(left)))
+    if not re.search(r"currentState\s*!=\s*LifecycleState::Stopped", reset_body) or not re.search(r"_lifecycleState\.store\s*\(\s*LifecycleState::Reset", reset_body):
+        raise TranslateError("TimerService::reset: `only from Stopped` test / Reset store not found")
+    reset_clears = [n for n, _ in reset_pats if n in {x for x, _ in reset_found}]
+
+    # ---- wake-up plumbing: programTimerfd (value programmed into the timerfd) and the poke() sites
+    pt = cxxscan.function_body(t, "programTimerfd")
+    if not re.search(r"auto\s+delta\s*=\s*\(\s*nextDue\.value\s*\(\s*\)\s*>\s*now\s*\)\s*\?\s*\(\s*nextDue\.value\s*\(\s*\)\s*-\s*now\s*\)\s*:\s*Duration::zero\s*\(\s*\)\s*;", pt):
+        raise TranslateError("programTimerfd: `delta = (nextDue > now) ? (nextDue - now) : zero` not found")
+    if not re.search(r"its\.it_value\.tv_sec\s*=\s*static_cast<time_t>\s*\(\s*ns\s*/\s*1000000000LL\s*\)\s*;\s*its\.it_value\.tv_nsec\s*=\s*static_cast<long>\s*\(\s*ns\s*%\s*1000000000LL\s*\)\s*;", pt):
+        raise TranslateError("programTimerfd: it_value = ns / 1e9, ns % 1e9 not found")
+    if not re.search(r"itimerspec\s+its\s*\{\s*\}\s*;", pt) or not re.search(r"::timerfd_settime\s*\(\s*_timerFd\s*,\s*0\s*,\s*&its\s*,\s*nullptr\s*\)", pt):
+        raise TranslateError("programTimerfd: zero-initialised itimerspec / relative timerfd_settime(_timerFd, 0, &its, nullptr) not found")
+    mz = re.search(r"if\s*\(\s*its\.it_value\.tv_sec\s*==\s*0\s*&&\s*its\.it_value\.tv_nsec\s*==\s*0\s*\)\s*\{\s*its\.it_value\.tv_nsec\s*=\s*(\d+)\s*;\s*\}", pt)
+    n_assign = len(re.findall(r"its\.it_(?:value|interval)\.tv_n?sec\s*=[^=]", pt))
+    if n_assign != (3 if mz else 2):
+        raise TranslateError("programTimerfd: %d assignments to `its`, shape not recognised" % n_assign)
+    zero_guard = mz is not None
+    zero_ns = int(mz.group(1)) if mz else 0
+    if zero_guard and zero_ns <= 0:
+        raise TranslateError("programTimerfd: zero guard sets a non-positive value")
+    if not re.search(r"if\s*\(\s*auto\s+top\s*=\s*heapTop\s*\(\s*\)\s*\)\s*\{\s*nextDue\s*=\s*top->tp\s*;\s*\}\s*timerfdErr\s*=\s*programTimerfd\s*\(\s*nextDue\s*\)\s*;", rl):
+        raise TranslateError("runLoop: `nextDue = heapTop()->tp; programTimerfd(nextDue)` not found")
+    if not re.search(r"collectDueLocked\s*\(\s*now\s*,\s*ready\s*\)\s*;\s*timerfdErr\s*=\s*programTimerfd\s*\(\s*std::nullopt\s*\)\s*;\s*shouldExit\s*=\s*true\s*;", rl):
+        raise TranslateError("runLoop: exit branch `collectDueLocked; programTimerfd(nullopt); shouldExit = true` not found")
+    if not re.search(r"if\s*\(\s*woke\s*\)\s*\{\s*drainEventfd\s*\(\s*\)\s*;\s*\}\s*if\s*\(\s*timerTriggered\s*\)\s*\{\s*drainTimerfd\s*\(\s*\)\s*;\s*\}", rl):
+        raise TranslateError("runLoop: drainEventfd / drainTimerfd after epoll_wait not found")
+    pk_body = cxxscan.function_body(t, "poke")
+    if not re.search(r"::write\s*\(\s*fd\s*,\s*&one\s*,\s*sizeof\s*\(\s*one\s*\)\s*\)", pk_body) or not re.search(r"if\s*\(\s*fd\s*<\s*0\s*\)\s*\{\s*return\s*;", pk_body):
+        raise TranslateError("poke: eventfd write / closed-fd early return not found")
+    POKE = r"(?<![\w.>])poke\s*\(\s*\)\s*;"
+    poke_sites = []
+
+    def _poke_after(body, what, after_rx, before_rx=None):
+        ma = [m for m in re.finditer(after_rx, body)]
+        if not ma:
+            raise TranslateError("%s: `%s` not found" % (what, after_rx))
+        for m in re.finditer(POKE, body):
+            if m.start() > ma[-1].end() and (before_rx is None or (re.search(before_rx, body[m.end():]) is not None)):
+                return _none_guarded(body, what, ML0, [POKE])
+        return False
+    ML0 = r"std::(?:lock_guard|unique_lock)<std::mutex>\s+lock\s*\(\s*_mutex\s*\)"
+    if _poke_after(sa, "scheduleAt", r"return\s+0\s*;", r"return\s+id\s*;"):
+        poke_sites.append("scheduleAt")
+    if _poke_after(sp, "schedulePeriodic", r"return\s+0\s*;", r"return\s+id\s*;"):
+        poke_sites.append("schedulePeriodic")
+    if re.search(r"if\s*\(\s*needsPoke\s*\)\s*\{\s*poke\s*\(\s*\)\s*;\s*\}", cb) and \
+            re.search(r"it->second\.canceled\s*=\s*true\s*;\s*needsPoke\s*=\s*true\s*;", cb) and len(re.findall(r"needsPoke\s*=\s*true", cb)) == 1 \
+            and _none_guarded(cb, "cancel", ML0, [POKE]):
+        poke_sites.append("cancel")
+    if _poke_after(dr, "drain", r"pt\.canceled\s*=\s*true", r"_drainCV\.wait"):
+        poke_sites.append("drain")
+    if _poke_after(sb, "stop", r"_running\.compare_exchange_strong", r"_thread\.join\s*\(\s*\)"):
+        poke_sites.append("stop")
+
+    # ---- SteadyTimer (FC08b): which cancel() the tree has
+    i_st = t.find("class SteadyTimer")
+    i_pool = t.find("class TimerServicePool", i_st)
+    if i_st < 0 or i_pool < 0:
+        raise TranslateError("class SteadyTimer not found")
+    stc = t[i_st:i_pool]
+    st_cancel = cxxscan.function_body(stc, "cancel")
+    st_wait = cxxscan.function_body(stc, "asyncWait")
+    if not re.search(r"cancel\s*\(\s*\)\s*;\s*_shared\s*=\s*std::make_shared<Shared>\s*\(\s*\)\s*;", st_wait):
+        raise TranslateError("SteadyTimer::asyncWait: `cancel(); _shared = std::make_shared<Shared>();` (a fresh arm object per wait) not found")
+    if not re.search(r"_token\s*=\s*_svc\.scheduleAt\s*\(\s*tp\s*,", st_wait) or not re.search(r"if\s*\(\s*auto\s+s\s*=\s*w\.lock\s*\(\s*\)\s*\)", st_wait):
+        raise TranslateError("SteadyTimer::asyncWait: scheduleAt(tp, wrapper holding a weak_ptr) not found")
+    new_cancel = re.search(r"suppressed\s*=\s*_shared->state\.compare_exchange_strong\s*\(\s*expected\s*,\s*Shared::Canceled", st_cancel) is not None \
+        and re.search(r"bool\s+ok\s*=\s*_svc\.cancel\s*\(\s*\*_token\s*\)\s*;\s*_token\.reset\s*\(\s*\)\s*;\s*return\s+ok\s*\|\|\s*suppressed\s*;", st_cancel) is not None
+    new_wrap = re.search(r"s->state\.compare_exchange_strong\s*\(\s*expected\s*,\s*Shared::Started", st_wait) is not None \
+        and re.search(r"if\s*\(\s*\*_token\s*==\s*0\s*\)\s*\{\s*_token\.reset\s*\(\s*\)\s*;", st_wait) is not None
+    old_cancel = re.search(r"_shared->canceled\.store\s*\(\s*true", st_cancel) is not None \
+        and re.search(r"bool\s+ok\s*=\s*_svc\.cancel\s*\(\s*\*_token\s*\)\s*;\s*_token\.reset\s*\(\s*\)\s*;\s*return\s+ok\s*;", st_cancel) is not None
+    old_wrap = re.search(r"if\s*\(\s*!\s*s->canceled\.load\s*\(", st_wait) is not None
+    if new_cancel and new_wrap and not old_cancel and not old_wrap:
+        steady_new = True
+    elif old_cancel and old_wrap and not new_cancel and not new_wrap:
+        steady_new = False
+    else:
+        raise TranslateError("SteadyTimer: cancel()/wrapper shapes not recognised (new %s/%s, legacy %s/%s)" % (new_cancel, new_wrap, old_cancel, old_wrap))
+    if not re.search(r"if\s*\(\s*_token\s*\)", st_cancel) or not re.search(r"return\s+false\s*;", st_cancel):
+        raise TranslateError("SteadyTimer::cancel: `if (_token) ... return false;` not found")
+
     # ---- _mutex: every section the service model treats as atomic takes the mutex first and holds it over all its accesses
     ML = r"std::(?:lock_guard|unique_lock)<std::mutex>\s+lock\s*\(\s*_mutex\s*\)"
     svc_sections = [
@@ -360,7 +513,7 @@ def gen(repo):
         ("drain.restore", dr, [r"compare_exchange_strong\s*\(\s*drainExpected", r"_accepting\.store\s*\(\s*true"]),
         ("stop.flag", sb, [r"_accepting\.store\s*\(\s*false"]) if stop_clears else ("stop.flag", "", []),
         ("markStopped", cxxscan.function_body(t, "markStopped"), [r"_accepting\.store\s*\(\s*false", r"_lifecycleState\.store\s*\("]) if via_mark else ("markStopped", "", []),
-        ("reset", cxxscan.function_body(t, "reset", signature_contains="override"), [r"_records\.clear\s*\(", r"_periodicTimers\.clear\s*\(", r"_heap\.clear\s*\(", r"_nextId\s*=\s*0"]),
+        ("reset", reset_body, [rx for _, rx in reset_found]),
         ("getInFlightCount", cxxscan.function_body(t, "getInFlightCount"), [r":\s*_records\s*\)"]),
         ("runLoop.collect", rl, [r"collectDueLocked\s*\(", r"_executingCallbacks\.fetch_add\s*\(", r"heapTop\s*\(", r"programTimerfd\s*\("]),
     ]
@@ -445,5 +598,26 @@ def gen(repo):
     out += "def svcHandlersRunOutsideLock : Bool := %s\n" % _bool(svc_run_outside)
     out += "/-- `drain`: the only `_accepting.store(true)` sits inside the braces of `if (CAS Draining -> Running)` -/\n"
     out += "def svcDrainRestoreInsideCas : Bool := %s\n" % _bool(restore_inside_cas)
+    # ---- c08w block (round 2) ----
+    out += "/-- `TimingWheel::schedule`: the id is `_nextId.fetch_add(1, ..)`, the only access to `_nextId` in the function; the class writes\n"
+    out += "`_nextId` nowhere else except `reset()`'s store -/\n"
+    out += "def wheelIdAllocAtomic : Bool := %s\n" % _bool(wheel_id_atomic)
+    out += "/-- `schedule`/`reschedule` compute the deadline with `deadlineAfter(Clock::now(), delay)` (FC08c), and `deadlineAfter` is\n"
+    out += "`ahead = duration_cast<milliseconds>(TimePoint::max() - now); behind = duration_cast<milliseconds>(now.time_since_epoch());\n`return now + std::clamp(delay, -behind, ahead);` -/\n"
+    out += "def wheelDeadlineSaturates : Bool := %s\ndef wheelDeadlineIsClamp : Bool := %s\n" % (_bool(wheel_deadline_sat), _bool(wheel_deadline_clamp))
+    out += "/-- `reset()`: order of its effects; `clearAllEntries()`: order of its effects (every bucket of every level is emptied);\n"
+    out += "`start()`: the states its compare-exchanges start from -/\n"
+    out += "def wheelResetOrder : List String := %s\n" % _lean_str_list(order_reset)
+    out += "def wheelClearOrder : List String := %s\n" % _lean_str_list(order_clear)
+    out += "def wheelStartFrom : List String := %s\n" % _lean_str_list(start_from)
+    out += "/-- `programTimerfd`: a computed `it_value` of exactly zero (which would disarm the timerfd) is replaced by this many ns -/\n"
+    out += "def svcTimerfdZeroGuard : Bool := %s\ndef svcTimerfdZeroNs : Nat := %d\n" % (_bool(zero_guard), zero_ns)
+    out += "/-- functions that call `poke()` after their `_mutex` section (on the success path) -/\n"
+    out += "def svcPokeSites : List String := %s\n" % _lean_str_list(poke_sites)
+    out += "/-- what `TimerService::reset()` clears under `_mutex` -/\n"
+    out += "def svcResetClears : List String := %s\n" % _lean_str_list(reset_clears)
+    out += "/-- `SteadyTimer::cancel()` answers `ok || suppressed` where `suppressed` = it won the CAS `Armed -> Canceled` on the arm's shared state\n"
+    out += "(FC08b); `false` = the legacy shape: a flag stored unconditionally, answer = the service-level answer alone -/\n"
+    out += "def steadyCancelReportsSuppressed : Bool := %s\n" % _bool(steady_new)
     out += "end Iora.Gen.Timer\n"
     return "IoraModel/Gen/Timer.lean", out
